@@ -457,6 +457,13 @@ Definition fc08_prog : body :=
   Fork PC Done (Act (Recv 0) (Act Await Done))
     (Act Await (modP (mulP (Act Await (mulP (Act Await Done)))))).
 
+(** the repaired program: mod as a PC coroutine *)
+Definition modP_fixed : body -> body :=
+  Fork PC Done (Act Await (Fork PC Done (Act (Send 1) (Act Await Done)) Done)).
+Definition fc08_fixed : body :=
+  Fork PC Done (Act (Recv 0) (Act Await Done))
+    (Act Await (modP_fixed (mulP (Act Await (mulP (Act Await Done)))))).
+
 Definition hop_ex (c : Z) (d : nat) : Z := c * 65536 + Z.of_nat d + 7.
 
 (** schedule A: `await f` finds f completed, the main program runs on to its next await, then mod's task runs;
@@ -687,3 +694,98 @@ Example bm_duplicate_refuted :
   snd (bm_run [Deliver 7; Deliver 7]) = true /\
   bm_run [Receive 7; Receive 7; Deliver 7] = ([(7, Payload)], 0%nat, false).
 Proof. vm_compute. split; reflexivity. Qed.
+
+(* ------------------------------------------------------------------------------------------ *)
+(** * Label uniqueness: reduction of "for every schedule" to the sequential reading              *)
+
+Section Sends.
+Variable hop : Z -> nat -> Z.
+
+(** all Send events of the sequential reading: (path, peer, label) *)
+Fixpoint sends (c : pcT) (b : body) (tp : path) : list (path * (nat * Z)) :=
+  match b with
+  | Done => []
+  | Act a k =>
+      (match a with Send p => [(tp, (p, fst c))] | _ => [] end) ++ sends (adv1 c a) k (tp ++ [N])
+  | Fork kd first rest k =>
+      sends c first (tp ++ [F])
+      ++ (match kd with PC => sends (child hop (advs c first)) rest (tp ++ [R]) | NoPC => [] end)
+      ++ sends (after_fork kd (advs c first)) k (tp ++ [N])
+  end.
+
+Lemma label_in_sends : forall b c tp q p v,
+  label hop c b q = Some (EvSend p v) -> In (tp ++ q, (p, v)) (sends c b tp).
+Proof.
+  induction b as [|a k IHk|kd first IHf rest IHr k IHk]; intros c tp q p v H.
+  - destruct q; simpl in H; discriminate.
+  - destruct q as [|d q]; simpl in H.
+    + simpl. apply in_or_app. left. destruct a; simpl in H; try discriminate.
+      inversion H; subst. rewrite app_nil_r. left. reflexivity.
+    + destruct d; try discriminate. simpl. apply in_or_app. right.
+      rewrite app_path. apply IHk. exact H.
+  - destruct q as [|d q]; simpl in H.
+    + destruct kd; discriminate.
+    + simpl. destruct d.
+      * (* N *) apply in_or_app. right. apply in_or_app. right. rewrite app_path. apply IHk.
+        destruct kd; exact H.
+      * (* F *) apply in_or_app. left. rewrite app_path. apply IHf. destruct kd; exact H.
+      * (* R *) destruct kd; [|discriminate]. apply in_or_app. right. apply in_or_app. left.
+        rewrite app_path. apply IHr. exact H.
+Qed.
+
+Lemma NoDup_map_inj : forall {A B} (f : A -> B) l x y,
+  NoDup (map f l) -> In x l -> In y l -> f x = f y -> x = y.
+Proof.
+  intros A B f l. induction l as [|h t IH]; intros x y Hnd Hx Hy Hf; [destruct Hx|].
+  simpl in Hnd. inversion Hnd; subst.
+  destruct Hx as [->|Hx]; destruct Hy as [->|Hy]; auto.
+  - exfalso. apply H1. rewrite Hf. apply in_map. exact Hy.
+  - exfalso. apply H1. rewrite <- Hf. apply in_map. exact Hx.
+Qed.
+
+(** If, in the sequential reading, no two sends to the same peer carry the same label, then in EVERY pair of
+    executions (any schedulers) two send events at distinct structural positions carry different (peer,label). *)
+Theorem labels_unique_reduction : forall c0 prog s1 s2 p1 p2 peer v1 v2,
+  wf_body prog = true ->
+  NoDup (map snd (sends c0 prog [])) ->
+  In (p1, EvSend peer v1) (trace (run hop c0 prog s1)) ->
+  In (p2, EvSend peer v2) (trace (run hop c0 prog s2)) ->
+  p1 <> p2 -> v1 <> v2.
+Proof.
+  intros c0 prog s1 s2 p1 p2 peer v1 v2 Hwf Hnd H1 H2 Hne Heq. subst v2.
+  apply (wf_labels_sound hop _ _ _ _ _ Hwf) in H1. apply (wf_labels_sound hop _ _ _ _ _ Hwf) in H2.
+  apply (label_in_sends _ _ []) in H1. apply (label_in_sends _ _ []) in H2. simpl in H1, H2.
+  pose proof (NoDup_map_inj snd _ _ _ Hnd H1 H2 eq_refl) as E. inversion E. contradiction.
+Qed.
+
+End Sends.
+
+(** executable duplicate check used by the correspondence run on logged call trees *)
+Fixpoint has_dup (l : list (nat * Z)) : bool :=
+  match l with
+  | [] => false
+  | (p, v) :: t => existsb (fun e => Nat.eqb (fst e) p && Z.eqb (snd e) v) t || has_dup t
+  end.
+
+Lemma has_dup_false_NoDup : forall l, has_dup l = false -> NoDup l.
+Proof.
+  induction l as [|[p v] t IH]; intros H; [constructor|].
+  simpl in H. apply orb_false_elim in H. destruct H as [H1 H2].
+  constructor; [|apply IH, H2].
+  intros Hin. assert (existsb (fun e => Nat.eqb (fst e) p && Z.eqb (snd e) v) t = true).
+  { apply existsb_exists. exists (p, v). split; [exact Hin|]. simpl. rewrite Nat.eqb_refl, Z.eqb_refl. reflexivity. }
+  congruence.
+Qed.
+
+Definition seq_sends_unique (hop : Z -> nat -> Z) (c0 : pcT) (prog : body) : bool :=
+  negb (has_dup (map snd (sends hop c0 prog []))).
+
+Theorem labels_unique : forall hop c0 prog s1 s2 p1 p2 peer v1 v2,
+  wf_body prog = true -> seq_sends_unique hop c0 prog = true ->
+  In (p1, EvSend peer v1) (trace (run hop c0 prog s1)) ->
+  In (p2, EvSend peer v2) (trace (run hop c0 prog s2)) ->
+  p1 <> p2 -> v1 <> v2.
+Proof.
+  intros hop c0 prog s1 s2 p1 p2 peer v1 v2 Hwf Hu. apply labels_unique_reduction; [exact Hwf|].
+  apply has_dup_false_NoDup. unfold seq_sends_unique in Hu. apply negb_true_iff in Hu. exact Hu.
+Qed.
